@@ -29,10 +29,10 @@ bottom edge):
 
 Model.  A text canvas is its real fields: `_text` a list of bytes rows, `_attr` / `_cs` lists of run-length lists, `_maxcol`.
 Rows are abstract texts of any length with run-length lists of any length (contracts/C02_rle.py: expansion view `at`);
-the NUMBER of rows is spelled out per path (0 .. 3 rows: every row window [trim_top, trim_top + rows) of such a canvas,
-with rows above and below the window), because a list of abstract texts of symbolic length is out of the engine's reach
-(as for TextCanvas.__init__, contracts/C02_canvas.py); the loop over the rows is executed row by row, the loop over the runs
-of a row goes through its invariant.  "For every run / every byte of a run" is proved for arbitrary constants R, Q
+the NUMBER of rows is spelled out per contract instance (1 row: the primary contract; `#no-rows`, `#two-rows`, `#three-rows`:
+every row window [trim_top, trim_top + rows) of such a canvas, with rows above and below the window), because a list of
+abstract texts of symbolic length is out of the engine's reach (as for TextCanvas.__init__, contracts/C02_canvas.py); the loop
+over the rows is executed row by row, the loop over the runs of a row goes through its invariant.  "For every run / every byte of a run" is proved for arbitrary constants R, Q
 (pyvc.values.arbitrary: universal generalisation), which keeps the queries free of nested quantifiers.
 The generators are verified as RUN TO EXHAUSTION (pyvc/interp.py run_function: generator_as_list)."""
 import z3
@@ -56,7 +56,7 @@ CV = "urwid/canvas.py:"
 UT = "urwid/util.py:"
 PROPS = ("C02", "C17", "C04")
 # canvases of this many rows (every row window of each), one contract instance per group (verified in parallel)
-ROW_GROUPS = {None: (0, 1), "two-rows": (2,), "three-rows": (3,)}
+ROW_GROUPS = {None: (1,), "no-rows": (0,), "two-rows": (2,), "three-rows": (3,)}
 
 
 # ------------------------------------------------------------------------------------------------ the canvas model
@@ -258,7 +258,7 @@ def _runs_inv(v):
     yield "run-lengths", implies(inside, tlen(e[2]) == pr[1])
     inq = both(inside, 0 <= Qo, Qo < pr[1])
     yield "bytes", implies(inq, byte_at(e[2], Qo) == byte_at(text, P))
-    yield "attribute-through-the-map", implies(inside, aeq(e[0], apply_opt(v.attr, pr[0][0])))
+    yield "attribute-through-the-map", implies(inside, aeq(e[0], apply_opt(entry_map(v.attr), pr[0][0])))
     yield "charset", implies(inside, aeq(e[1], pr[0][1]))
 
 
@@ -268,6 +268,14 @@ def _unchanged_canvas(old, s):
     same_lists = all(f[n] is l and l.seq is q for n, (l, q) in tc.lists.items())
     same_rows = all(x.seq is q for x, q in zip(tc.attrs, tc.attr_seqs)) and all(x.seq is q for x, q in zip(tc.css, tc.cs_seqs))
     return both(same_lists, same_rows, s._maxcol == old._maxcol)
+
+
+def entry_map(m):
+    """The map as it was at entry (the clauses speak about the map the caller passed, also if the code were to write to it)."""
+    m0 = cur().ghost.get("map_at_entry")
+    if m0 is None or not isinstance(m, SOpt):
+        return m
+    return SOpt(m.isnone, SFMap(m0, frozen=True))
 
 
 def _unchanged_map(a):
@@ -297,9 +305,6 @@ def _text_content_post(old, s, a, result):
         j = src[0]
         text, ar, cr = tc.texts[j], tc.attrs[j], tc.css[j]
         nr = row_runs(row)
-        if isinstance(nr, int) and nr == 0:
-            yield f"row-{y}-empty-only-for-a-canvas-without-columns", old._maxcol == 0
-            continue
         e = row_get(row, Rr)
         inside = both(0 <= Rr, Rr < nr)
         P = row_off(row, Rr) + Qo
@@ -308,7 +313,7 @@ def _text_content_post(old, s, a, result):
         yield f"row-{y}-runs-hold-exactly-the-bytes-of-the-window", both(row_off(row, nr) == nbytes, implies(both(0 <= Rr, Rr <= nr), both(0 <= row_off(row, Rr), row_off(row, Rr) <= nbytes)))
         yield f"row-{y}-no-empty-run", implies(inside, tlen(e[2]) >= 1)
         yield f"row-{y}-bytes-are-the-bytes-of-the-window", implies(inq, byte_at(e[2], Qo) == byte)
-        yield f"row-{y}-attribute-is-the-cell's-mapped-exactly-when-listed", implies(inq, aeq(e[0], apply_opt(a.attr, av)))
+        yield f"row-{y}-attribute-is-the-cell's-mapped-exactly-when-listed", implies(inq, aeq(e[0], apply_opt(entry_map(a.attr), av)))
         yield f"row-{y}-charset-is-the-cell's", implies(inq, _cs_eq(e[1], cv))
     yield "canvas-not-modified", _unchanged_canvas(old, s)
     yield "map-not-modified", _unchanged_map(a)
@@ -444,7 +449,7 @@ def _fill_clauses(out, fill, cs, ncols, amap):
     yield "every-row-is-one-run", implies(inside, row_runs(row) == 1)
     yield "as-wide-as-cols-cells", implies(inside, tlen(e[2]) == L * imax(ncols, 0))
     yield "every-cell-shows-the-fill-character", implies(cell, byte_at(e[2], X * L + J) == byte_at(fill, J))
-    yield "attribute-is-none-mapped-exactly-when-listed", implies(inside, aeq(e[0], apply_opt(amap, None)))
+    yield "attribute-is-none-mapped-exactly-when-listed", implies(inside, aeq(e[0], apply_opt(entry_map(amap), None)))
     yield "charset-is-the-fill-character's", implies(inside, aeq(e[1], cs))
 
 
@@ -679,3 +684,19 @@ class canvas_text:
     def on_raise(old, s, a, exc):
         tc = cur().ghost["tc"]
         yield "only-passed-on-from-content", neg(window(old, _whole(a), tc.k)[2])
+
+
+# ------------------------------------------------------------------------------------------------ notes
+# * Zero-length runs (precondition `all runs positive` of canvas_wf): TextCanvas.__init__ accepts them, and content() then
+#   loses cells -- rle_product stops at the first zero-length run it loads (contracts/C02_rle.py):
+#       list(TextCanvas([b"ab"], [[("x", 0), ("y", 2)]]).content())            == [[]]
+#       list(TextCanvas([b"ab"], [[("x", 1), ("y", 0), ("z", 1)]]).content())  == [[("x", None, b"a")]]
+#   urwid's own pipeline does not build such lists (decompose_tagmarkup drops empty markup segments, the rle_* builders merge
+#   or append positive runs), so this is a stated precondition, not a finding.
+# * Out of reach here: CompositeCanvas.content / content_delta.  They drive shard_body / shard_body_row / shard_body_tail,
+#   which keep the children's content() GENERATOR OBJECTS alive in nested tuples and advance them with next() one row at a
+#   time across shard boundaries (`iter(cviews)` resumed by a later `for`, StopIteration as control flow); the engine runs
+#   a generator to exhaustion in one go and has no iterator objects with a position.  Bounded check of C02.
+#   Canvas.decoded_text: `bytes.decode(<encoding of the screen>)` in strict mode for an arbitrary codec has no model.
+#   Canvas.text of a SolidCanvas / CompositeCanvas: the rows come as a list of symbolic length, the join model above would
+#   be evaluated lazily per index.
